@@ -97,7 +97,10 @@ MNext == ChooseTypes \/ AddSimple \/ Open \/ NextPart \/ Close \/ Finish
 Prog == stack[1].cur
 RECURSIVE SetToSeq(_)
 SetToSeq(S) == IF S = {} THEN << >> ELSE LET x == CHOOSE y \in S : TRUE IN <<x>> \o SetToSeq(S \ {x})
-ArgsFor(T) == SetToSeq({o \in ArgObjs : Member(o, T)})
+\* Arguments are drawn from the declared type; bool objects are only passed where bool is declared: True == 1 and
+\* False == 0 compare equal across types, and narrowing by == / in / literal patterns is only claimed for objects
+\* whose equality with the tested literals implies equal type (the same restriction as in property C02).
+ArgsFor(T) == SetToSeq({o \in ArgObjs : Member(o, T) /\ (o.c = "bool" => T = Typed("bool"))})
 
 \* the declared types are inhabited (otherwise no execution would be observed)
 Inhabited == done = "done" => (ArgsFor(tx) # << >> /\ ArgsFor(ty) # << >>)
